@@ -402,6 +402,8 @@ struct PkGen {
     for (int i : order) { Rec &o = op("hdr"); o.set("i", i); fault(o, hfp);
       if (o.has("fault") && g.chance(0.6)) { o.set("fault", "field").setu("a", g.next() >> 16).setu("b", g.next() >> 16); if (g.chance(0.15)) o.setu("a2", g.next() >> 16).setu("b2", g.next() >> 16); } if (g.chance(0.05)) o.set("src", 1); if (g.chance(0.05)) o.set("bos", (int64_t)g.below(2));
       if (o.has("fault") && g.chance(0.4)) { Rec &o2 = op("hdr"); o2.set("i", i); } }   // retry with the pristine packet
+    // a further identification header after the set-up is complete (repeated b_o_s): from the other stream, or with one field changed
+    if (g.chance(0.12)) { Rec &o = op("hdr"); o.set("i", 0); if (g.chance(0.5)) o.set("src", 1); else o.set("fault", "field").setu("a", g.next() >> 16).setu("b", g.next() >> 16); if (g.chance(0.2)) o.set("bos", 0); }
     op("init").set("halfrate", g.chance(0.1) ? 1 : 0);
     if (g.chance(0.1)) op("init");
     int n = (int)g.range(0, thorough ? 300 : 80); size_t j = 0; double pf = g.chance(0.3) ? 0.0 : 0.05 + g.unit() * 0.5;
